@@ -239,7 +239,9 @@ fn module_items_mut<'a>(items: &'a mut Vec<syn::Item>, path: &[&str]) -> &'a mut
 
 /// Glue appended to a C08 variant: the forwarding guest and uniform entry points.
 /// `None`: this variant cannot be forwarded generically (see `nested_ref`).
-fn c08_glue(file: &syn::File, shape: bool) -> Option<proc_macro2::TokenStream> {
+fn c08_glue(file: &syn::File, shape: u8) -> Option<proc_macro2::TokenStream> {
+    let method = shape == 2;
+    let shape = shape != 0;
     let root = &file.items;
     let f = find_fn(root, "f").expect("generated import `f`");
     // shape: the export is a static function of resource `r` in the exported interface `e`;
@@ -257,8 +259,10 @@ fn c08_glue(file: &syn::File, shape: bool) -> Option<proc_macro2::TokenStream> {
     // a reference below the top level of an import parameter needs a type-directed conversion
     // from the export's owned value - unless the export parameter has the very same type (borrow
     // handles: `Vec<&Thing>` on both sides)
+    // (a method's receiver is not forwarded)
+    let g_inputs: Vec<&syn::FnArg> = g.sig.inputs.iter().filter(|a| matches!(a, syn::FnArg::Typed(_))).collect();
     let ty_str = |t: &syn::Type| t.to_token_stream().to_string().replace("'_", "").replace("'a", "").replace(' ', "");
-    for (fp, gp) in f.sig.inputs.iter().zip(g.sig.inputs.iter()) {
+    for (fp, gp) in f.sig.inputs.iter().zip(g_inputs.iter().copied()) {
         if let (syn::FnArg::Typed(fp), syn::FnArg::Typed(gp)) = (fp, gp) {
             if nested_ref(&fp.ty) && ty_str(&fp.ty) != ty_str(&gp.ty) {
                 return None;
@@ -267,7 +271,7 @@ fn c08_glue(file: &syn::File, shape: bool) -> Option<proc_macro2::TokenStream> {
     }
     // forwarding call: pass `&x` where the import takes a reference
     let mut call_args = vec![];
-    for (fp, gp) in f.sig.inputs.iter().zip(g.sig.inputs.iter()) {
+    for (fp, gp) in f.sig.inputs.iter().zip(g_inputs.iter().copied()) {
         let (syn::FnArg::Typed(fp), syn::FnArg::Typed(gp)) = (fp, gp) else { panic!("unexpected receiver") };
         let name = &gp.pat;
         if matches!(&*fp.ty, syn::Type::Reference(_)) {
@@ -280,7 +284,7 @@ fn c08_glue(file: &syn::File, shape: bool) -> Option<proc_macro2::TokenStream> {
     // buffer whose capacity equals its length; what is handed to the host and what is freed
     // afterwards must agree all the same)
     let mut reserve = vec![];
-    for (fp, gp) in f.sig.inputs.iter().zip(g.sig.inputs.iter()) {
+    for (fp, gp) in f.sig.inputs.iter().zip(g_inputs.iter().copied()) {
         let (syn::FnArg::Typed(fp), syn::FnArg::Typed(gp)) = (fp, gp) else { continue };
         let t = gp.ty.to_token_stream().to_string().replace(' ', "");
         let by_value = !matches!(&*fp.ty, syn::Type::Reference(_));
@@ -303,7 +307,7 @@ fn c08_glue(file: &syn::File, shape: bool) -> Option<proc_macro2::TokenStream> {
     } else {
         call
     };
-    let (cabi_name, post_name, cb_name) = if shape { ("_export_static_r_g_cabi", "__post_return_static_r_g", "__callback_static_r_g") } else { ("_export_g_cabi", "__post_return_g", "__callback_g") };
+    let (cabi_name, post_name, cb_name) = if method { ("_export_method_r_g_cabi", "__post_return_method_r_g", "__callback_method_r_g") } else if shape { ("_export_static_r_g_cabi", "__post_return_static_r_g", "__callback_static_r_g") } else { ("_export_g_cabi", "__post_return_g", "__callback_g") };
     let (cabi_id, post_id, cb_id) = (format_ident!("{}", cabi_name), format_ident!("{}", post_name), format_ident!("{}", cb_name));
     let implementor = if shape { quote!(VerifR) } else { quote!(VerifGuest) };
     let gsig = &g.sig;
@@ -355,8 +359,24 @@ fn c08_glue(file: &syn::File, shape: bool) -> Option<proc_macro2::TokenStream> {
             }
         }
     };
+    // a method needs a live `r`: the guest makes one (`[resource-new]r` tells the host its
+    // representation) and the host destroys it after the call, as the `[dtor]r` export would
+    let self_fns = if method {
+        quote! {
+            pub const VERIF_NEW_SELF: Option<unsafe fn()> = Some(verif_new_self);
+            pub unsafe fn verif_new_self() { ::core::mem::forget(R::new(VerifR)); }
+            pub const VERIF_DROP_SELF: Option<unsafe fn(u64)> = Some(verif_drop_self);
+            pub unsafe fn verif_drop_self(rep: u64) { unsafe { R::dtor::<VerifR>(rep as usize as *mut u8) } }
+        }
+    } else {
+        quote! {
+            pub const VERIF_NEW_SELF: Option<unsafe fn()> = None;
+            pub const VERIF_DROP_SELF: Option<unsafe fn(u64)> = None;
+        }
+    };
     Some(quote! {
         #impls
+        #self_fns
         pub const VERIF_NARGS: usize = #nargs;
         pub unsafe fn verif_call_g(args: &[u64]) -> u64 { unsafe { #ret_conv } }
         #post
@@ -370,7 +390,7 @@ fn main() {
     println!("cargo:rerun-if-changed=build.rs");
     // the exports of the C07 guest are looked up by symbol name at run time (dlsym)
     println!("cargo:rustc-link-arg-bins=-rdynamic");
-    let mut registry = String::from("pub struct Entry { pub sig: usize, pub name: &'static str, pub variant: &'static str, pub nargs: usize, pub call_g: unsafe fn(&[u64]) -> u64, pub post_return: Option<unsafe fn(&[u64])>, pub callback: Option<unsafe fn(u32, u32, u32) -> u32>, pub res_shape: bool }\n");
+    let mut registry = String::from("pub struct Entry { pub sig: usize, pub name: &'static str, pub variant: &'static str, pub nargs: usize, pub call_g: unsafe fn(&[u64]) -> u64, pub post_return: Option<unsafe fn(&[u64])>, pub callback: Option<unsafe fn(u32, u32, u32) -> u32>, pub res_shape: u8, pub new_self: Option<unsafe fn()>, pub drop_self: Option<unsafe fn(u64)> }\n");
     let mut mods = String::new();
     let mut entries = String::from("pub static ENTRIES: &[Entry] = &[\n");
     // entries of the resource shape are listed after all others: the index of an entry is a recorded
@@ -394,18 +414,18 @@ fn main() {
                 continue;
             };
             let glue_file: syn::File = syn::parse2(glue).expect("glue parses");
-            if *shape {
+            if *shape != 0 {
                 module_items_mut(&mut file.items, &["exports", "verif", "c08", "e"]).extend(glue_file.items);
             } else {
                 file.items.extend(glue_file.items);
             }
-            let at = if *shape { "::exports::verif::c08::e" } else { "" };
+            let at = if *shape != 0 { "::exports::verif::c08::e" } else { "" };
             file.attrs.clear();
             let text = prettyplease::unparse(&file);
             let modname = format!("sig{i}_{variant}");
             std::fs::write(out.join(format!("{modname}.rs")), text).unwrap();
             mods.push_str(&format!("#[allow(warnings, clippy::all)]\npub mod {modname} {{ include!(concat!(env!(\"OUT_DIR\"), \"/{modname}.rs\")); }}\n"));
-            (if *shape { &mut entries_shape } else { &mut entries }).push_str(&format!("  Entry {{ sig: {i}, name: {name:?}, variant: {variant:?}, nargs: {modname}{at}::VERIF_NARGS, call_g: {modname}{at}::verif_call_g, post_return: {modname}{at}::VERIF_POST_RETURN, callback: {modname}{at}::VERIF_CALLBACK, res_shape: {shape} }},\n"));
+            (if *shape != 0 { &mut entries_shape } else { &mut entries }).push_str(&format!("  Entry {{ sig: {i}, name: {name:?}, variant: {variant:?}, nargs: {modname}{at}::VERIF_NARGS, call_g: {modname}{at}::verif_call_g, post_return: {modname}{at}::VERIF_POST_RETURN, callback: {modname}{at}::VERIF_CALLBACK, res_shape: {shape}, new_self: {modname}{at}::VERIF_NEW_SELF, drop_self: {modname}{at}::VERIF_DROP_SELF }},\n"));
         }
     }
     entries.push_str(&entries_shape);
